@@ -112,17 +112,35 @@ func main() {
 			die("%v", err)
 		}
 	}
-	// knob setter lives in internal/xsync if present (the bridge calls it)
+	// knob setters (the bridge calls them)
 	xs := filepath.Join(*dst, "internal", "xsync")
 	if fi, err := os.Stat(xs); err == nil && fi.IsDir() {
 		var b bytes.Buffer
 		b.WriteString("// Code added by the verification rewriter. DO NOT EDIT.\n\npackage xsync\n\n")
-		if _, ok := knobDirs[filepath.Join("internal", "xsync")]; ok {
+		if _, ok := knobDirs[filepath.Join("internal", "xsync")+"|defaultMinMapTableLen"]; ok {
 			b.WriteString("// VerifSetMinTableLen sets the minimal table length knob (shipped value 32).\nfunc VerifSetMinTableLen(n int) bool { defaultMinMapTableLen = n; return true }\n")
 		} else {
 			b.WriteString("// VerifSetMinTableLen: the knob could not be lifted in this tree.\nfunc VerifSetMinTableLen(n int) bool { return false }\n")
 		}
 		if err := os.WriteFile(filepath.Join(xs, "verif_knob_gen.go"), b.Bytes(), 0o644); err != nil {
+			die("%v", err)
+		}
+	}
+	{
+		rootPkg := ""
+		for k, v := range knobDirs {
+			if k == ".|DefaultMinCapacity" {
+				rootPkg = v
+			}
+		}
+		var b bytes.Buffer
+		if rootPkg != "" {
+			fmt.Fprintf(&b, "// Code added by the verification rewriter. DO NOT EDIT.\n\npackage %s\n\n// VerifSetMinCapacity sets the MinCapacity floor knob (shipped value 96).\nfunc VerifSetMinCapacity(n int) bool { DefaultMinCapacity = n; return true }\n", rootPkg)
+		} else {
+			pkg := rootPackageName(*dst)
+			fmt.Fprintf(&b, "// Code added by the verification rewriter. DO NOT EDIT.\n\npackage %s\n\n// VerifSetMinCapacity: the knob could not be lifted in this tree.\nfunc VerifSetMinCapacity(n int) bool { return false }\n", pkg)
+		}
+		if err := os.WriteFile(filepath.Join(*dst, "verif_knob_gen.go"), b.Bytes(), 0o644); err != nil {
 			die("%v", err)
 		}
 	}
@@ -133,6 +151,30 @@ func main() {
 	}
 	fmt.Printf("rewrite: files=%d imports=%d go=%d select=%d select_left=%d hook_calls=%d knob=%d\n",
 		st.files, st.imports, st.gos, st.selects, st.selectsLeft, st.hookCalls, st.knob)
+}
+
+func hasIdent(e ast.Expr) bool {
+	found := false
+	ast.Inspect(e, func(n ast.Node) bool {
+		if _, ok := n.(*ast.Ident); ok {
+			found = true
+		}
+		return true
+	})
+	return found
+}
+
+func rootPackageName(dir string) string {
+	ents, _ := os.ReadDir(dir)
+	for _, e := range ents {
+		if strings.HasSuffix(e.Name(), ".go") && !strings.HasSuffix(e.Name(), "_gen.go") {
+			f, err := parser.ParseFile(token.NewFileSet(), filepath.Join(dir, e.Name()), nil, parser.PackageClauseOnly)
+			if err == nil {
+				return f.Name.Name
+			}
+		}
+	}
+	return "cache"
 }
 
 func copyFile(from, to string) error {
@@ -203,6 +245,7 @@ func rewriteFile(in, out, dir string, hookDirs, knobDirs map[string]string) erro
 
 	// 5. knob
 	if !*noKnob {
+		lifted := false
 		for i, d := range f.Decls {
 			gd, ok := d.(*ast.GenDecl)
 			if !ok || gd.Tok != token.CONST {
@@ -210,21 +253,23 @@ func rewriteFile(in, out, dir string, hookDirs, knobDirs map[string]string) erro
 			}
 			for j, sp := range gd.Specs {
 				vs := sp.(*ast.ValueSpec)
-				if len(vs.Names) == 1 && vs.Names[0].Name == "defaultMinMapTableLen" && len(vs.Values) == 1 {
-					if _, isLit := vs.Values[0].(*ast.BasicLit); !isLit {
+				if len(vs.Names) == 1 && (vs.Names[0].Name == "defaultMinMapTableLen" || vs.Names[0].Name == "DefaultMinCapacity") && len(vs.Values) == 1 && vs.Type == nil {
+					if hasIdent(vs.Values[0]) {
 						continue
 					}
+					name := vs.Names[0].Name
 					gd.Specs = append(gd.Specs[:j:j], gd.Specs[j+1:]...)
 					nv := &ast.GenDecl{Tok: token.VAR, Specs: []ast.Spec{&ast.ValueSpec{
-						Names: []*ast.Ident{ast.NewIdent("defaultMinMapTableLen")}, Values: vs.Values}}}
+						Names: []*ast.Ident{ast.NewIdent(name)}, Values: vs.Values}}}
 					rest := append([]ast.Decl{nv}, f.Decls[i+1:]...)
 					f.Decls = append(f.Decls[:i+1:i+1], rest...)
-					knobDirs[dir] = f.Name.Name
+					knobDirs[dir+"|"+name] = f.Name.Name
 					st.knob++
+					lifted = true
 					break
 				}
 			}
-			if st.knob > 0 {
+			if lifted {
 				break
 			}
 		}
